@@ -17,7 +17,7 @@ def q(x):
             return "NAN"
         if math.isinf(x):
             return "INF" if x > 0 else "-INF"
-    if isinstance(x, bool) or not isinstance(x, (int, float, F)):
+    if not isinstance(x, (int, float, F)):          # bool is an int: True == 1
         return "BAD " + type(x).__name__
     f = F(x)
     return "%d/%d" % (f.numerator, f.denominator)
@@ -49,13 +49,18 @@ class CHECK(core.Check):
     RULE = ("grid cases: angle a = i/4, wrap w = j/4, desired d on the same grid, exhaustively |i|<=80,|j|<=24 step 2 "
             "(quick) / |i|<=200, |j|<=40 (thorough), passed as Python ints when integral and 'int' typing is chosen, "
             "else as floats (all operations exact there); random grid cases with denominators 1..1024 and typical "
-            "wraps 180/360/-180; big-int wrap1 cases; float cases: random binary64 angles (|a| up to 1e9, tiny "
+            "wraps 180/360/-180; big-int wrap1 cases; typed cases: every argument as int (also > 2**53), bool, float and "
+            "fractions.Fraction (also values no float can hold: 1/3, 1/10, -721/7), exhaustive family over small value "
+            "sets with wrap == 0 in every type and negative wraps, plus random ones; float cases: random binary64 angles (|a| up to 1e9, tiny "
             "negative, just below a multiple of the wrap) and wraps (180.0, 360.0, pi, 2pi, random, negative). "
             "non-trivial = wrap != 0 and the angle is outside the target range (something was wrapped); distinct by "
             "(kind, typing, a, w, d)")
     TRUSTED = ["correspondence: navigating.wrap1/wrap2/delta run in-process; results compared as exact rationals "
                "(float.as_integer_ratio) with the exact model on grid cases and with the binary64 instantiation "
-               "(round-to-nearest-even after each arithmetic step, unbounded exponent) on float cases",
+               "(round-to-nearest-even after each arithmetic step, unbounded exponent) on float cases; typed cases "
+               "with the typed layer wrap1T/wrap2T/deltaT (exact int/Fraction arithmetic, float() conversion = rn when a "
+               "float operand is involved). Results are compared as exact rationals whatever their Python type, so a "
+               "pass-through must return a number equal to its input exactly",
                "CPython float %: C fmod (exact) plus one rounded addition when signs differ — the reason the binary64 "
                "instantiation is 'round the exact floor-mod once'",
                "IEEE rounding itself (rn in the model) is validated by the float cases only; NaN, infinities, "
@@ -70,7 +75,9 @@ class CHECK(core.Check):
                   "C43_delta_short_and_correct, C43_wrap_zero_id. IEEE binary64 (second, rounded instantiation, tied "
                   "bit for bit to the implementation): the half-open range fails (C43_counterexample_float), proved "
                   "instead: the CLOSED ranges C43_float_wrap1_closed_range, C43_float_wrap2_range, "
-                  "C43_float_delta_range (rounding to nearest is monotone), and C43_float_agrees_partial.")
+                  "C43_float_delta_range (rounding to nearest is monotone), and C43_float_agrees_partial. Arguments of "
+                  "any numeric type: C43_typed_wrap_zero_id (wrap 0 returns the exact number, no float conversion), "
+                  "C43_typed_wrap1_exact, C43_typed_float, C43_typed_wrap2_range.")
     LEVEL_NOTE = ("Trusted: Lean kernel; axioms propext, Classical.choice, Quot.sound; transcription of navigating.py "
                   "validated by the correspondence runs. Not covered: NaN/inf arguments, overflow of wrap*2.0, "
                   "subnormal results, non-numeric arguments.")
@@ -79,6 +86,8 @@ class CHECK(core.Check):
         self._region = {}
         self.nfloat = 0
         self.nfloat_rounded = 0
+        self.ntyped = 0
+        self.ntyped_rounded = 0
 
     # ------------------------------------------------------------------ cases
     @staticmethod
@@ -95,9 +104,47 @@ class CHECK(core.Check):
                 k = (3 * i + 5 * j) % (2 * I + 1) - I
                 ty = "int" if (i % 4 == 0 and j % 4 == 0 and k % 4 == 0 and (i + j) % 8 == 0) else "float"
                 yield self._grid(i, j, k, 4, ty)
+        yield from self._typed_family()
         for w in (180, 360, -180, -360, 0):
             for a in range(-725, 726, 5 if tier == "quick" else 1):
                 yield self._grid(a, w, (a * 7) % 720 - 360, 1, "int" if a % 2 else "float")
+
+    T_A = {"frac": ["1/3", "1/10", "-721/7", "5/2", "0/1"],
+           "int": ["0/1", "7/1", "-190/1", "%d/1" % (2 ** 53 + 1), "%d/1" % -(2 ** 60 + 3), "%d/1" % (10 ** 20 + 1)],
+           "float": ["0/1", "3602879701896397/36028797018963968", "-381/2", "370/1", "%d/1" % 10 ** 18],
+           "bool": ["1/1", "0/1"]}
+    T_W = {"int": ["0/1", "180/1", "-180/1", "7/1"], "float": ["0/1", "360/1", "-1/2"],
+           "frac": ["0/1", "-7/2", "1/3", "360/1"], "bool": ["0/1", "1/1"]}
+    T_D = [("1/3", "frac"), ("10/1", "int"), ("350/1", "float"), ("1/1", "bool"), ("%d/1" % (2 ** 53 + 3), "int"),
+           ("-1/10", "frac")]
+
+    def _typed_family(self):
+        """every numeric type for every argument; wrap == 0 in every type, negative wraps, values a float cannot hold"""
+        n = 0
+        for ta, avals in self.T_A.items():
+            for a in avals:
+                for tw, wvals in self.T_W.items():
+                    for w in wvals:
+                        for j in (0, 3):
+                            d, td = self.T_D[(n + j) % len(self.T_D)]
+                            yield {"kind": "typed", "a": a, "ta": ta, "w": w, "tw": tw, "d": d, "td": td}
+                        n += 1
+
+    def _rand_typed(self, rng):
+        def val(ty, wrap=False):
+            if ty == "bool":
+                return "%d/1" % rng.randrange(2)
+            if ty == "int":
+                return "%d/1" % rng.choice([0, rng.randrange(-2000, 2000), rng.randrange(-2 ** 70, 2 ** 70), 2 ** 53 + rng.randrange(1, 9)])
+            if ty == "float":
+                x = rng.choice([0.0, rng.uniform(-1000, 1000), float(rng.randrange(-720, 720)), rng.uniform(-1e12, 1e12), 0.1])
+                return q(x)
+            den = rng.choice([1, 2, 3, 7, 10, 360, 2 ** 60 + 1])
+            return q(F(rng.randrange(-5000 * den, 5000 * den), den) if not wrap else F(rng.randrange(-400 * den, 400 * den), den))
+        tys = ["int", "float", "frac", "bool"]
+        ta, tw, td = rng.choice(tys), rng.choice(tys), rng.choice(tys)
+        w = "0/1" if rng.random() < 0.3 else val(tw, True)
+        return {"kind": "typed", "a": val(ta), "ta": ta, "w": w, "tw": tw, "d": val(td), "td": td}
 
     def _float(self, rng):
         w = rng.choice([180.0, 360.0, 180.0, 360.0, math.pi, 2 * math.pi, -180.0, -math.pi, 1.0, 0.1, 0.0,
@@ -123,8 +170,10 @@ class CHECK(core.Check):
 
     def generate(self, rng, n, tier):
         for _ in range(n):
-            r = rng.randrange(10)
-            if r < 4:
+            r = rng.randrange(12)
+            if r >= 10:
+                yield self._rand_typed(rng)
+            elif r < 4:
                 yield self._float(rng)
             elif r < 8:
                 den = rng.choice([1, 1, 2, 4, 8, 16, 64, 1024])
@@ -144,7 +193,24 @@ class CHECK(core.Check):
 
     # ------------------------------------------------------------------ implementation
     @staticmethod
+    def _typed(val, ty):
+        """the Python object of the given numeric type holding exactly `val`"""
+        v = unq(val)
+        if ty == "frac":
+            return v
+        if ty == "float":
+            x = float(v)
+            if F(x) != v:
+                raise ValueError("case asks for a float that cannot hold %s" % v)
+            return x
+        if v.denominator != 1:
+            raise ValueError("case asks for an %s holding %s" % (ty, v))
+        return bool(v.numerator) if ty == "bool" else int(v)
+
+    @staticmethod
     def _args(c):
+        if c["kind"] == "typed":
+            return tuple(CHECK._typed(c[k], c["t" + k]) for k in ("a", "w", "d"))
         if c["kind"] == "float":
             return tuple(float.fromhex(c[k]) for k in ("a", "w", "d"))
         a, w = unq(c["a"]), unq(c["w"])
@@ -171,6 +237,11 @@ class CHECK(core.Check):
         if c["kind"] == "float":
             return ["wrap1f %s %s" % (a, w), "wrap2f %s %s" % (a, w), "deltaf %s %s %s" % (d, a, w),
                     "region float %s %s %s" % (d, a, w)]
+        if c["kind"] == "typed":
+            fa, fw, fd = ("1" if c["t" + k] == "float" else "0" for k in ("a", "w", "d"))
+            return ["wrap1t %s %s %s %s" % (fa, fw, a, w), "wrap2t %s %s" % (a, w),
+                    "deltat %s %s %s %s %s" % (fd, fa, d, a, w),
+                    "region typed %s %s %s %s %s %s" % (fd, fa, fw, d, a, w)]
         # grid: the exact model; the binary64 instantiation must coincide with it there
         return ["wrap1 %s %s" % (a, w), "wrap2 %s %s" % (a, w), "delta %s %s %s" % (d, a, w),
                 "wrap1f %s %s" % (a, w), "wrap2f %s %s" % (a, w), "deltaf %s %s %s" % (d, a, w)]
@@ -182,6 +253,12 @@ class CHECK(core.Check):
             self._region[core.case_key(c)] = reg
             self.nfloat += 1
             self.nfloat_rounded += reg
+            return r
+        if c["kind"] == "typed":
+            reg = r.pop() == "1"
+            self._region[core.case_key(c)] = reg
+            self.ntyped += 1
+            self.ntyped_rounded += reg
             return r
         if c["kind"] == "grid":
             exact, flt = r[:3], r[3:]
@@ -208,7 +285,7 @@ class CHECK(core.Check):
         r1 = unq(out[0])
         if fw == 0:
             if r1 != fa:
-                return "wrap1(%s, 0) = %s, a wrap of zero must return the angle" % (a, r1)
+                return "wrap1(%r, %r) = %s, a wrap of zero must return the angle unchanged (equal as an exact number)" % (a, w, r1)
         else:
             if fw > 0 and not (0 <= r1 < fw):
                 return "wrap1(%r, %r) = %s is outside [0, wrap)" % (a, w, float(r1))
@@ -221,7 +298,7 @@ class CHECK(core.Check):
         r2, rd = unq(out[1]), unq(out[2])
         if fw == 0:
             if r2 != fa:
-                return "wrap2(%s, 0) = %s, a wrap of zero must return the angle" % (a, r2)
+                return "wrap2(%r, %r) = %s, a wrap of zero must return the angle unchanged (equal as an exact number)" % (a, w, r2)
         else:
             if not (-abs(fw) <= r2 <= abs(fw)):
                 return "wrap2(%r, %r) = %s is outside [-|wrap|, |wrap|]" % (a, w, float(r2))
@@ -234,12 +311,13 @@ class CHECK(core.Check):
 
     # ------------------------------------------------------------------ bookkeeping
     def region(self, finding, c):
-        if finding.get("region") != "Ioflo.Wrap.floatDiffers" or c["kind"] != "float":
+        # float cases: Ioflo.Wrap.floatDiffers; typed cases: Ioflo.Wrap.typedDiffers, the same predicate after the
+        # implicit float() conversions of non-float arguments (it IS floatDiffers when all three are floats)
+        if finding.get("region") != "Ioflo.Wrap.floatDiffers" or c["kind"] not in ("float", "typed"):
             return False
         key = core.case_key(c)
         if key not in self._region:
-            a, w, d = (q(x) for x in self._args(c))
-            self._region[key] = core.Driver(self.ENGINE).run(["region float %s %s %s" % (d, a, w)]) == ["1"]
+            self._region[key] = core.Driver(self.ENGINE).run([self.requests(c)[-1]]) == ["1"]
         return self._region[key]
 
     def nontrivial(self, c, out):
@@ -253,18 +331,33 @@ class CHECK(core.Check):
     def bucket(self, c, out):
         a, w, d = self._args(c)
         k = c["kind"] + ("/" + c["ty"] if c["kind"] == "grid" else "")
+        if c["kind"] == "typed":
+            k = "typed a:%s w:%s" % (c["ta"], c["tw"])
         if w == 0:
             return k + " wrap=0"
         return k + (" wrap>0" if w > 0 else " wrap<0") + (" a<0" if a < 0 else " a>=0")
 
     def extra_evidence(self):
-        return {"float_cases": self.nfloat,
+        return {"typed_cases": self.ntyped, "typed_cases_with_rounding": self.ntyped_rounded,
+                "float_cases": self.nfloat,
                 "float_cases_with_rounding": self.nfloat_rounded,
                 "outside_model": ("IEEE binary64 rounding is not part of the theorems; float cases are compared with "
                                   "the rounded instantiation (rn after every operation). NaN, infinities, overflow "
                                   "and subnormals are not generated and not modelled")}
 
     def shrink_candidates(self, c):
+        if c["kind"] == "typed":
+            for k in ("a", "w", "d"):
+                for nv in ("0/1", "1/1", "1/3", "%d/1" % (2 ** 53 + 1)):
+                    if nv == c[k]:
+                        continue
+                    n = dict(c, **{k: nv})
+                    try:
+                        self._args(n)
+                    except ValueError:
+                        n["t" + k] = "frac"
+                    yield n
+            return
         if c["kind"] == "float":
             a, w, d = self._args(c)
             for na in (float(round(a)), a / 2, 0.0, 1.0, -1.0):
